@@ -140,7 +140,7 @@ class Ctx:
         # parse Print Assumptions output: one block per theorem in file order
         blocks = re.split(r"(?=Closed under the global context|^Axioms:)", out, flags=re.M)
         blocks = [b for b in blocks if b.startswith("Closed under") or b.startswith("Axioms:")]
-        printed = re.findall(r"^Print Assumptions\s+([A-Za-z0-9_']+)\.", text, re.M)
+        printed = [q.split(".")[-1] for q in re.findall(r"^Print Assumptions\s+([A-Za-z0-9_'.]+)\.\s*$", text, re.M)]
         axioms_all = []
         for i, n in enumerate(printed):
             b = blocks[i] if i < len(blocks) else "?"
